@@ -852,6 +852,63 @@ func genConstsFacts() map[string]any {
 			})
 		}
 	}
+	// Auditd.Read: its Go routines, whether it joins them before returning, channel capacities
+	readGo, readGoJoined, readGoCtx := 0, 0, 0
+	readDefersWait := false
+	parseDoneCap, reassErrCap := int64(-1), int64(-1)
+	if read != nil {
+		derived := ""
+		cancelName := ""
+		ast.Inspect(read.Body, func(n ast.Node) bool {
+			switch x := n.(type) {
+			case *ast.AssignStmt:
+				if len(x.Rhs) == 1 {
+					if c, ok := x.Rhs[0].(*ast.CallExpr); ok {
+						if selName(c.Fun) == "context.WithCancel" && len(x.Lhs) == 2 && len(c.Args) == 1 && selName(c.Args[0]) == "ctx" {
+							derived, cancelName = selName(x.Lhs[0]), selName(x.Lhs[1])
+						}
+						if selName(c.Fun) == "make" && len(x.Lhs) == 1 && len(c.Args) >= 1 {
+							capv := int64(0)
+							if len(c.Args) == 2 {
+								if v, ok := evalConst(c.Args[1]); ok {
+									capv = v
+								} else {
+									capv = -1
+								}
+							}
+							switch selName(x.Lhs[0]) {
+							case "parseAuditLogsDone":
+								parseDoneCap = capv
+							case "reassemblerErrors":
+								reassErrCap = capv
+							}
+						}
+					}
+				}
+			}
+			return true
+		})
+		for _, st := range read.Body.List {
+			switch x := st.(type) {
+			case *ast.GoStmt:
+				readGo++
+				body := src("processors/auditd/auditd.go", fset, x.Call)
+				if strings.Contains(body, "defer workers.Done()") {
+					readGoJoined++
+				}
+				if derived != "" && strings.Contains(body, "("+derived+",") && !strings.Contains(body, "(ctx,") {
+					readGoCtx++
+				}
+			case *ast.DeferStmt:
+				body := src("processors/auditd/auditd.go", fset, x.Call)
+				ci := strings.Index(body, cancelName+"()")
+				wi := strings.Index(body, "workers.Wait()")
+				if cancelName != "" && ci >= 0 && wi > ci {
+					readDefersWait = true
+				}
+			}
+		}
+	}
 	// `ready` receive in Ingest must be inside a select with ctx
 	var b strings.Builder
 	b.WriteString("-- GENERATED by tools/extract from processors/auditd/auditd.go, cmd/namedpipe.go, main.go; do not edit\nnamespace AM.Gen\n\n")
@@ -880,6 +937,7 @@ func genConstsFacts() map[string]any {
 	emit("sends", sends)
 	emit("recvs", loops)
 	fmt.Fprintf(&fb, "def ingestOpenRacedWithCtx : Bool := %v\ndef ingestCloserOnCtx : Bool := %v\n\n", ingestOpenRaced, ingestCloser)
+	fmt.Fprintf(&fb, "/-- `Auditd.Read`: `go` statements, those whose body defers `workers.Done()`, those started on the derived (cancellable) context; whether a deferred function cancels that context and then waits for the Go routines; channel capacities -/\ndef readGoStmts : Nat := %d\ndef readGoJoined : Nat := %d\ndef readGoOnWorkersCtx : Nat := %d\ndef readDefersCancelThenWait : Bool := %v\ndef parseDoneCap : Nat := %d\ndef reassemblerErrorsCap : Nat := %d\n\n", readGo, readGoJoined, readGoCtx, readDefersWait, max64(parseDoneCap, 0), max64(reassErrCap, 0))
 	fb.WriteString("/-- number of `return … nil` statements per worker function -/\ndef returnsNil : List (String × Nat) :=\n  [")
 	var ks []string
 	for k := range retNil {
@@ -904,6 +962,10 @@ func genConstsFacts() map[string]any {
 	out["returnsNil"] = retNil
 	out["ingestOpenRacedWithCtx"] = ingestOpenRaced
 	out["ingestCloserOnCtx"] = ingestCloser
+	out["readGo"] = []int{readGo, readGoJoined, readGoCtx}
+	out["readDefersCancelThenWait"] = readDefersWait
+	out["parseDoneCap"] = parseDoneCap
+	out["reassemblerErrorsCap"] = reassErrCap
 	return out
 }
 
